@@ -56,6 +56,12 @@ def label(r, n=None):
         b = bytes([r.choice([0, 255, 0x2d, 0x2f, 0xc0, 0x40])]) * n
     else:
         b = bytes(r.getrandbits(8) for _ in range(n))
+    # bytes that mean something to a name encoder at either end of a label: NUL (root / terminator), 0xc0 (pointer
+    # marker), 0x40, blank
+    if n and r.random() < 0.25:
+        b = b[:-1] + bytes([r.choice([0, 0, 0xc0, 0x40, 0x20])])
+    if n and r.random() < 0.1:
+        b = bytes([r.choice([0, 0xc0, 0x40])]) + b[1:]
     return b.replace(b".", b"\x2f")
 
 
@@ -151,6 +157,18 @@ def name_cases(ctx):
             st = [uni(e, STR(tail))]
         out.append(case("n%d" % k, st, kind="name", want=want, tail=tail))
         k += 1
+    # explicit label lists whose labels end or begin with a byte the encoder itself uses (NUL, pointer marker ...), in
+    # the dotted form and in the one-label-per-argument form, complete and followed by a pointer
+    for endb in (0x00, 0xc0, 0x40, 0x20, 0xff):
+        for ls in ([b"www", b"ab" + bytes([endb])], [bytes([endb]) + b"x", b"y"], [bytes([endb])], [b"a", bytes([endb]) * 3, b"b" + bytes([endb])]):
+            tail = b"\x07\x08"
+            out.append(case("n%d" % k, [uni(Call("dns::name", _x=[STR(l) for l in ls]), STR(tail))], kind="name", want=(ls, "-"), tail=tail))
+            k += 1
+            out.append(case("n%d" % k, [uni(Call("dns::name", STR(b".".join(ls))), STR(tail))], kind="name", want=(ls, "-"), tail=tail))
+            k += 1
+            out.append(case("n%d" % k, [uni(Call("dns::name", _x=[STR(l) for l in ls], complete=False), Call("dns::pointer", offset=INT(12)), STR(tail))],
+                            kind="name", want=(ls, "12"), tail=tail))
+            k += 1
     for off in (0x4000, 0x8001, 0xffff):
         out.append(case("n%d" % k, [uni(Call("dns::pointer", offset=INT(off)))], kind="pointer-unfit"))
         k += 1
